@@ -286,6 +286,86 @@ theorem duplicate_rejected_second (loads : List Stmt) {i j : Nat} (hij : i < j)
   · rw [if_pos hbad]; rfl
   · rw [if_neg hbad, if_pos ⟨i, hij, he⟩]; rfl
 
+/-! ### texts with several modules
+
+`Modules.Parse` accepts a text that holds several module / submodule statements.  It adds them one
+after the other, each seeing the ones before it (`Registry.addText`), and gives the whole text up
+when one is refused (`Registry.loadTexts`: the registry stays as it was before the text).
+`loadAll` above is the case of one statement per text (`loads_are_texts`). -/
+
+/-- The statements of the texts that were accepted, in load order. -/
+def acceptedStmts (texts : List (List Stmt)) : List Stmt :=
+  (Goyang.Lemmas.Registry.acceptedTexts {} texts).flatten
+
+theorem loads_are_texts (loads : List Stmt) : Registry.loadTexts (loads.map fun s => [s]) = Registry.loadAll loads :=
+  Goyang.Lemmas.Registry.loadTextsFrom_singletons loads {}
+
+/-- **Texts reduce to loads.**  After any sequence of texts the registry is the one obtained by
+loading the statements of the accepted texts one by one, and none of those loads is rejected — so
+`registry_eq_spec`, `bare_is_latest`, `exact_revision_when_loaded`, `registry_perm_invariant` speak
+about it (with `loads := acceptedStmts texts`).  Those statements have `@`-free names and pairwise
+different headers. -/
+theorem texts_as_loads (texts : List (List Stmt)) :
+    (Registry.loadTexts texts).1 = (Registry.loadAll (acceptedStmts texts)).1 ∧
+    (rejectedFlags (acceptedStmts texts)).all (· == false) = true ∧
+    (∀ s ∈ acceptedStmts texts, '@' ∉ s.arg.toList) ∧ ((acceptedStmts texts).map header).Nodup := by
+  obtain ⟨h1, h2⟩ := Goyang.Lemmas.Registry.loadTextsFrom_eq_loadFrom texts {}
+  obtain ⟨_, h3, h4⟩ := Goyang.Lemmas.Registry.loadTextsFrom_spec texts Goyang.Lemmas.Registry.inv_empty
+    (by simp) (by simp)
+  refine ⟨h1, ?_, fun s hs => h3 s (by simpa [acceptedStmts] using hs), by simpa [acceptedStmts] using h4⟩
+  unfold rejectedFlags Registry.loadAll acceptedStmts
+  rw [List.all_map]
+  rw [← h2]
+  apply Goyang.Lemmas.Registry.all_congr_mem
+  intro o _
+  cases o <;> rfl
+
+/-- **Which text is accepted.**  After any texts, a further text is accepted exactly when no name
+in it contains `@`, no two of its statements have the same kind, name and latest revision, and
+none of its statements has the kind, name and latest revision of a statement of an accepted
+earlier text. -/
+theorem text_accepted_iff (before : List (List Stmt)) (text : List Stmt) :
+    (∃ r', (Registry.loadTexts before).1.addText text = .ok r') ↔
+      (∀ s ∈ text, '@' ∉ s.arg.toList) ∧ (text.map header).Nodup ∧
+      ∀ s ∈ text, header s ∉ (acceptedStmts before).map header := by
+  obtain ⟨inv, h3, _⟩ := Goyang.Lemmas.Registry.loadTextsFrom_spec before Goyang.Lemmas.Registry.inv_empty
+    (by simp) (by simp)
+  simp only [List.nil_append] at inv h3
+  have step := Goyang.Lemmas.Registry.addText_spec inv h3 text
+  unfold Registry.loadTexts acceptedStmts
+  cases hadd : (Registry.loadTextsFrom {} before).1.addText text with
+  | ok r' => rw [hadd] at step; exact ⟨fun _ => step.1, fun _ => ⟨r', rfl⟩⟩
+  | error e =>
+    rw [hadd] at step
+    exact ⟨fun ⟨_, h⟩ => (by cases h), fun h => absurd h step⟩
+
+/-- **The same name and revision twice in one text is rejected** — like twice in two texts
+(`duplicate_rejected`): whatever was loaded before, a text in which two statements have the same
+kind, name and latest revision is refused as a whole (and `loadTexts` keeps the registry as it
+was before the text). -/
+theorem duplicate_in_text_rejected (before : List (List Stmt)) (text : List Stmt) {i j : Nat} (hij : i < j)
+    (hj : j < text.length) (he : header (text[i]'(by omega)) = header text[j]) :
+    ∃ e, (Registry.loadTexts before).1.addText text = .error e := by
+  cases hadd : (Registry.loadTexts before).1.addText text with
+  | error e => exact ⟨e, rfl⟩
+  | ok r' =>
+    exfalso
+    have hnd := ((text_accepted_iff before text).mp ⟨r', hadd⟩).2.1
+    have hi : i < (text.map header).length := by simp; omega
+    have hj' : j < (text.map header).length := by simp; omega
+    have := (List.pairwise_iff_getElem.mp hnd) i j hi hj' hij
+    simp only [List.getElem_map, ne_eq] at this
+    exact this he
+
+/-- A text that repeats the kind, name and latest revision of a statement of an accepted earlier
+text is refused as a whole. -/
+theorem duplicate_of_loaded_rejected (before : List (List Stmt)) (text : List Stmt) {s : Stmt} (hs : s ∈ text)
+    (hdup : header s ∈ (acceptedStmts before).map header) :
+    ∃ e, (Registry.loadTexts before).1.addText text = .error e := by
+  cases hadd : (Registry.loadTexts before).1.addText text with
+  | error e => exact ⟨e, rfl⟩
+  | ok r' => exact absurd hdup (((text_accepted_iff before text).mp ⟨r', hadd⟩).2.2 s hs)
+
 /-! ### the hypotheses are satisfiable, and the statements say something -/
 
 /-- A module or submodule header as a statement (what the driver builds from the wire format). -/
@@ -314,6 +394,14 @@ example : bound exAt false "m@2020" = some ⟨false, "m", "2020"⟩ ∧
     bound exAt.reverse false "m@2020" = some ⟨false, "m", "2020"⟩ := by decide
 example : rejectedHeaders exAt = [⟨false, "m@2020", ""⟩] ∧ rejectedHeaders exAt.reverse = [⟨false, "m@2020", ""⟩] := by
   decide
+-- one text with the same module and revision twice (second copy with another older revision): refused,
+-- nothing of it stays — also not its first statement
+def exText : List Stmt := [mk false "n" [], mk false "m" ["2020-01-01"], mk false "m" ["2020-01-01", "2019-01-01"]]
+example : header (exText[1]) = header (exText[2]) := by decide
+example : (Registry.loadTexts [[mk false "k" []], exText]).2.map Option.isSome = [false, true] := by decide
+example : (acceptedStmts [[mk false "k" []], exText]).map header = [⟨false, "k", ""⟩] := by decide
+example : ((lk (Registry.loadTexts [[mk false "k" []], exText]).1 false "n").map hdrOf) = none := by decide
+example : (Registry.loadTexts [exText.take 2, exText.drop 2]).2.map Option.isSome = [false, true] := by decide
 -- `registry_perm_invariant_stmt`: a list without two equal headers
 example : ((exLoads.take 3).map header).Nodup := by decide
 -- `exact_revision_when_loaded`: `import m { revision-date 2019-12-31; }` after `exLoads`
